@@ -103,6 +103,121 @@ type Sim struct {
 	reqs    []Request
 	Hook    Hook
 	LogBody bool
+	// Watch enables GET ...?watch=true (off by default: the core harness scripts its waiter and nothing
+	// watches). Changes are kept in a short log so that a watch can start from the resourceVersion of a
+	// preceding LIST without losing what happened in between.
+	Watch    bool
+	wlog     []wevent
+	watchers map[int]*watcher
+	wseq     int
+}
+
+type wevent struct {
+	rv  int
+	typ string
+	k   Key
+	obj map[string]interface{}
+}
+
+type watcher struct {
+	group, resource, ns, name string
+	version                   string
+	ch                        chan []byte
+}
+
+func (w *watcher) matches(k Key) bool {
+	return k.Group == w.group && k.Resource == w.resource && (w.ns == "" || k.Namespace == w.ns) && (w.name == "" || k.Name == w.name)
+}
+
+func (w *watcher) encode(e wevent) []byte {
+	b, _ := json.Marshal(map[string]interface{}{"type": e.typ, "object": view(e.obj, Key{Group: w.group, Version: w.version})})
+	return append(b, '\n')
+}
+
+// record (under s.mu) logs a change and hands it to the matching watchers.
+func (s *Sim) record(typ string, k Key, o map[string]interface{}) {
+	if !s.Watch {
+		return
+	}
+	e := wevent{rv: s.rv, typ: typ, k: k.store(), obj: deepCopy(o)}
+	s.wlog = append(s.wlog, e)
+	if len(s.wlog) > 512 {
+		s.wlog = s.wlog[len(s.wlog)-512:]
+	}
+	for _, w := range s.watchers {
+		if w.matches(e.k) {
+			select {
+			case w.ch <- w.encode(e):
+			default: // a watcher that does not read is dropped from (its stream ends at the next write)
+			}
+		}
+	}
+}
+
+// Remove deletes an object directly (out-of-band).
+func (s *Sim) Remove(k Key) {
+	s.mu.Lock()
+	defer s.mu.Unlock()
+	if o, ok := s.objs[k.store()]; ok {
+		delete(s.objs, k.store())
+		s.rv++
+		s.record("DELETED", k, o)
+	}
+}
+
+// serveWatch answers GET ...?watch=true with a stream of watch events.
+func (s *Sim) serveWatch(req *http.Request) *http.Response {
+	p := parsePath(req.URL.Path)
+	name := ""
+	if fs := req.URL.Query().Get("fieldSelector"); strings.HasPrefix(fs, "metadata.name=") {
+		name = strings.TrimPrefix(fs, "metadata.name=")
+	}
+	from, _ := strconv.Atoi(req.URL.Query().Get("resourceVersion"))
+	w := &watcher{group: p.info.Group, version: p.info.Version, resource: p.info.Resource, ns: p.ns, name: name, ch: make(chan []byte, 1024)}
+	s.mu.Lock()
+	if s.watchers == nil {
+		s.watchers = map[int]*watcher{}
+	}
+	s.wseq++
+	id := s.wseq
+	if from == 0 {
+		for k, o := range s.objs {
+			if w.matches(k) {
+				w.ch <- w.encode(wevent{typ: "ADDED", k: k, obj: o})
+			}
+		}
+	} else {
+		for _, e := range s.wlog {
+			if e.rv > from && w.matches(e.k) {
+				w.ch <- w.encode(e)
+			}
+		}
+	}
+	s.watchers[id] = w
+	s.mu.Unlock()
+	pr, pw := io.Pipe()
+	go func() {
+		defer func() {
+			s.mu.Lock()
+			delete(s.watchers, id)
+			s.mu.Unlock()
+			pw.Close()
+		}()
+		for {
+			select {
+			case b := <-w.ch:
+				if _, err := pw.Write(b); err != nil {
+					return
+				}
+			case <-req.Context().Done():
+				return
+			}
+		}
+	}()
+	return &http.Response{
+		StatusCode: 200, Status: "200 OK", Proto: "HTTP/1.1", ProtoMajor: 1, ProtoMinor: 1,
+		Header: http.Header{"Content-Type": []string{"application/json"}}, Body: pr, ContentLength: -1, Request: req,
+	}
 }
 
 func New() *Sim {
@@ -137,12 +252,6 @@ func (s *Sim) GetObj(k Key) map[string]interface{} {
 	return nil
 }
 
-// Remove deletes an object directly (out-of-band).
-func (s *Sim) Remove(k Key) {
-	s.mu.Lock()
-	defer s.mu.Unlock()
-	delete(s.objs, k.store())
-}
 
 // Mutate applies fn to the stored object (out-of-band edit).
 func (s *Sim) Mutate(k Key, fn func(o map[string]interface{})) bool {
@@ -215,6 +324,9 @@ func (t *transport) RoundTrip(req *http.Request) (*http.Response, error) {
 	if req.Body != nil {
 		body, _ = io.ReadAll(req.Body)
 		req.Body.Close()
+	}
+	if t.s.Watch && req.Method == http.MethodGet && (req.URL.Query().Get("watch") == "true" || req.URL.Query().Get("watch") == "1") {
+		return t.s.serveWatch(req), nil
 	}
 	status, out := t.s.handle(t.proc, req, body)
 	b, _ := json.Marshal(out)
@@ -392,6 +504,13 @@ func (s *Sim) stamp(k Key, o map[string]interface{}, create bool) {
 	if create {
 		md["uid"] = fmt.Sprintf("uid-%d", s.rv)
 	}
+	if s.Watch {
+		typ := "MODIFIED"
+		if create {
+			typ = "ADDED"
+		}
+		s.record(typ, k, o)
+	}
 }
 
 func setNested(o map[string]interface{}, v interface{}, path ...string) {
@@ -534,7 +653,8 @@ func (s *Sim) apply(req *http.Request, p parsed, key Key, body []byte) (int, int
 			return notFound()
 		}
 		delete(s.objs, key.store())
-		_ = o
+		s.rv++
+		s.record("DELETED", key, o)
 		return 200, map[string]interface{}{"kind": "Status", "apiVersion": "v1", "metadata": map[string]interface{}{}, "status": "Success"}
 	}
 	return 405, statusObj(405, "MethodNotAllowed", req.Method)
